@@ -298,9 +298,20 @@ func genCase(t *rapid.T) (Case, map[string]bool) {
 	lastIncr := false
 	for b := 0; b < nblocks; b++ {
 		ns := rapid.IntRange(0, 6).Draw(t, "nsty")
+		again := false
 		for i := 0; i < ns; i++ {
-			o := gen.Styling(t, num, col, "sty")
-			if o.K == ops.SetLOD {
+			var o ops.Op
+			if n := len(c.Ops); i > 0 && !again && n > 0 {
+				o, again = gen.Again(t, c.Ops[n-1], "sty")
+			} else {
+				again = false
+			}
+			if again {
+				gs.l("same-value-written-again")
+			} else {
+				o = gen.Styling(t, num, col, "sty")
+			}
+			if o.K == ops.SetLOD && !again {
 				o = ops.OpSetLOD(lodValue(t, h, "lod0"), lodValue(t, h, "lod1"))
 				gs.l("lod-set")
 				if o.Arg(0) == float32(h) || o.Arg(1) == float32(h) {
